@@ -16,7 +16,9 @@
 (***************************************************************************)
 EXTENDS Bytecode, Json, IOUtils
 
-Recs == ndJsonDeserialize(IOEnv.TRACE)
+\* parsed once at start-up into a TLC register (TLC re-evaluates a definition that reads a file on every reference)
+ASSUME TLCSet(7, ndJsonDeserialize(IOEnv.TRACE))
+Recs == TLCGet(7)
 W == Recs[1].widths
 
 Prod(ws) == FoldLeft(LAMBDA a, w : a * Pow256(w), 1, ws)
